@@ -28,7 +28,7 @@ func splitExpr(e Expr) []Expr {
 		if x.Forall {
 			var out []Expr
 			for _, b := range splitExpr(x.Body) {
-				out = append(out, &EQuant{true, x.Vars, b})
+				out = append(out, &EQuant{Forall: true, Vars: x.Vars, Body: b, Triggers: x.Triggers})
 			}
 			return out
 		}
@@ -62,6 +62,11 @@ func (f *frame) obligeClause(kind, name string, env *specEnv, cl *Clause, guard 
 // uses/definitions of the variable whose block dominates `at`, the one closest to `at` wins (the
 // deepest dominator, the latest in its block). With at == nil the last recorded one wins.
 func (f *frame) lookupLocal(name string, at *ssa.BasicBlock) (ssa.Value, bool) {
+	return f.lookupLocalFiltered(name, at, nil)
+}
+
+// lookupLocalFiltered is lookupLocal ignoring the recorded uses in blocks for which skip holds.
+func (f *frame) lookupLocalFiltered(name string, at *ssa.BasicBlock, skip func(*ssa.BasicBlock) bool) (ssa.Value, bool) {
 	var best *ssa.DebugRef
 	bestDepth, bestIdx := -1, -1
 	depth := func(b *ssa.BasicBlock) int {
@@ -81,6 +86,9 @@ func (f *frame) lookupLocal(name string, at *ssa.BasicBlock) (ssa.Value, bool) {
 		}
 		b := d.Block()
 		if at != nil && !b.Dominates(at) {
+			continue
+		}
+		if skip != nil && skip(b) {
 			continue
 		}
 		idx := 0
